@@ -6,7 +6,7 @@ import ast
 from ..astutil import arg, body_wo_doc, const, inline, is_num, kwarg, returns, unparse, NOCONST, single_defs
 from ..attrs import attr_read_cone, must_attrs_at
 from ..cfg import CFG
-from ..index import AnalysisError, Class, Func, dotted, own_nodes
+from ..index import AnalysisError, Class, Func, dotted, own_nodes, parents
 from ..resolve import Unresolved, bind_call
 from ..tolflow import TolFlow
 
@@ -117,6 +117,7 @@ def run(ctx, rep):
     _check_trace_one(ctx, rep)
     _check_identity_sum(ctx, rep)
     _check_gate_tp_row(ctx, rep)
+    _check_gate_tp_generic(ctx, rep)
     _check_psd(ctx, rep)
 
     # ---------------------------------------------------------------------- T4
@@ -296,6 +297,100 @@ def _check_gate_tp_row(ctx, rep):
         rep.holds("T3'", f, call, "hs[0] vs e0 (zeros with entry 0 := 1)", node=call)
     else:
         rep.violation("T3'", f, call, "reference row is zeros with %s, expected e0 = {0: 1}" % vec, node=call)
+
+
+def _check_gate_tp_generic(ctx, rep):
+    """generic-basis branch of gate.is_tp: Tr[A(B_i)] = Tr[B_i] for every basis element.  The mapped element
+    must be column i of the HS matrix (hs applied from the left to the unit vector e_i)."""
+    f = ctx.ix.func(OBJ + "gate.is_tp")
+    sites = _close_calls(ctx, f)
+    gen = []
+    for call, sp in sites:
+        a = arg(call, sp["a"], "a")
+        if not (isinstance(a, ast.Subscript) and isinstance(a.value, ast.Name) and a.value.id == "hs"):
+            gen.append((call, sp))
+    if len(gen) != 1:
+        rep.undecided("T3'", f, "generic-basis test", "expected one comparison of traces, found %d" % len(gen))
+        return
+    call, sp = gen[0]
+    a, b = arg(call, sp["a"], "a"), arg(call, sp["b"], "b")
+    loop = next((p for p in parents(call) if isinstance(p, ast.For)), None)
+    if loop is None or not (isinstance(loop.iter, ast.Call) and dotted(loop.iter.func) == "enumerate" and loop.iter.args
+                            and unparse(loop.iter.args[0]) == "c_sys.basis()" and isinstance(loop.target, ast.Tuple)
+                            and all(isinstance(e, ast.Name) for e in loop.target.elts)):
+        rep.undecided("T3'", f, call, "trace comparison is not inside `for index, basis in enumerate(c_sys.basis())`")
+        return
+    idx, bas = loop.target.elts[0].id, loop.target.elts[1].id
+    defs = {}
+    for st in loop.body:
+        if isinstance(st, ast.Assign) and len(st.targets) == 1 and isinstance(st.targets[0], ast.Name):
+            defs.setdefault(st.targets[0].id, st.value)
+
+    def d(e):
+        for _ in range(3):
+            if isinstance(e, ast.Name) and e.id in defs:
+                e = defs[e.id]
+        return e
+    sides = {"after": None, "before": None}
+    for e in (a, b):
+        e = d(e)
+        t = unparse(e)
+        if t in ("%s.diagonal().sum()" % bas, "np.trace(%s)" % bas, "%s.trace()" % bas):
+            sides["before"] = e
+        elif isinstance(e, ast.Call) and (dotted(e.func) or "").endswith("trace") and e.args and isinstance(e.args[0], ast.Name):
+            sides["after"] = e
+    if sides["before"] is None or sides["after"] is None:
+        rep.undecided("T3'", f, call, "compared quantities are not trace(mapped element) and trace(basis element)")
+        return
+    dens = sides["after"].args[0].id
+    # density accumulates coefficient * basis over zip(<mapped vector>, c_sys.basis())
+    acc = [n for st in loop.body for n in ast.walk(st) if isinstance(n, ast.For) and isinstance(n.iter, ast.Call) and dotted(n.iter.func) == "zip"
+           and len(n.iter.args) == 2 and any(isinstance(x, ast.AugAssign) and unparse(x.target) == dens for x in n.body)]
+    if len(acc) != 1 or unparse(acc[0].iter.args[1]) != "c_sys.basis()":
+        rep.undecided("T3'", f, call, "the mapped element is not assembled as sum_j coefficient_j * basis_j")
+        return
+    mapped = d(acc[0].iter.args[0])
+    # unit vector e_index
+    def unit(name):
+        z, st1 = None, {}
+        for st in loop.body:
+            if isinstance(st, ast.Assign) and len(st.targets) == 1:
+                t = st.targets[0]
+                if isinstance(t, ast.Name) and t.id == name and isinstance(st.value, ast.Call) and (dotted(st.value.func) or "").endswith("zeros"):
+                    z = st
+                elif isinstance(t, ast.Subscript) and isinstance(t.value, ast.Name) and t.value.id == name:
+                    st1[unparse(t.slice)] = const(st.value)
+        return z is not None and st1 == {idx: 1}
+    form = None
+    if isinstance(mapped, ast.BinOp) and isinstance(mapped.op, ast.MatMult):
+        form = (mapped.left, mapped.right)
+    elif isinstance(mapped, ast.Call) and dotted(mapped.func) in ("np.dot", "np.matmul", "numpy.dot") and len(mapped.args) == 2:
+        form = (mapped.args[0], mapped.args[1])
+    elif isinstance(mapped, ast.Call) and isinstance(mapped.func, ast.Attribute) and mapped.func.attr == "dot" and len(mapped.args) == 1:
+        form = (mapped.func.value, mapped.args[0])
+    if form is not None:
+        l, r = form
+        if unparse(l) == "hs" and isinstance(r, ast.Name) and unit(r.id):
+            rep.holds("T3'", f, call, "Tr[sum_j (hs @ e_i)_j B_j] vs Tr[B_i]: column i of hs", node=call)
+        elif isinstance(l, ast.Name) and unit(l.id) and unparse(r) in ("hs.T", "hs.transpose()", "np.transpose(hs)"):
+            rep.holds("T3'", f, call, "e_i @ hs.T = column i of hs", node=call)
+        elif (isinstance(l, ast.Name) and unit(l.id) and unparse(r) == "hs") or \
+                (unparse(l) in ("hs.T", "hs.transpose()") and isinstance(r, ast.Name) and unit(r.id)):
+            rep.violation("T3'", f, call, "the image of basis element i is taken as `%s`, i.e. ROW i of the HS matrix; the channel acts as hs @ e_i "
+                                         "(column i), so this tests unitality-like row sums of the transpose, not trace preservation" % unparse(mapped),
+                          node=mapped)
+        else:
+            rep.undecided("T3'", f, call, "mapped vector `%s` is outside the recognised forms" % unparse(mapped))
+    elif isinstance(mapped, ast.Subscript) and unparse(mapped.value) == "hs":
+        t = unparse(mapped.slice).replace(" ", "")
+        if t == ":,%s" % idx:
+            rep.holds("T3'", f, call, "column i of hs", node=call)
+        elif t in (idx, "%s,:" % idx):
+            rep.violation("T3'", f, call, "row i of hs is used as the image of basis element i; it is column i", node=mapped)
+        else:
+            rep.undecided("T3'", f, call, "mapped vector `%s` is outside the recognised forms" % unparse(mapped))
+    else:
+        rep.undecided("T3'", f, call, "mapped vector `%s` is outside the recognised forms" % unparse(mapped))
 
 
 def _check_psd(ctx, rep):
